@@ -63,6 +63,13 @@ def bar_step(b, op):
         else:                                   # "strs", "pairs", "mixed": plain (nested) lists
             raw = [list(i) if isinstance(i, (list, tuple)) else i for i in x]
         return b.place_notes(raw, num(op[2]))
+    if t == "place_same":
+        # a container of the caller's own, holding two notes of one pitch spelled differently (the second diminished in place):
+        # the entry carries THAT container, as given
+        nc = NoteContainer([Note("C#", 4), Note("D", 4)])
+        nc.notes[1].diminish()
+        r = b.place_notes(nc, num(op[1])) if op[2] == "place" else (b + nc)
+        return [r, bool(b.bar) and b.bar[-1][2] is nc]
     if t == "rest":
         return b.place_rest(num(op[1]))
     if t == "plus":
